@@ -67,6 +67,17 @@ Lemma gen_hit_src :
   /\ hit_info_ad_src = [bytes_of "authData"].
 Proof. repeat split; reflexivity. Qed.
 
+(* session 5 — the four in-place header setters and the call sequences of the cut / failure composers
+   (Proofs_word.v writes them on the flags word; Model.produce follows the call order) *)
+Lemma gen_hit_word_src :
+  clear_ad_src = [bytes_of "body[3] &^= FlagAD"] /\ set_ad_src = [bytes_of "body[3] |= 0x20"]
+  /\ set_ra_src = [bytes_of "body[3] |= 0x80"] /\ set_rcode_src = [bytes_of "body[3] = body[3]&0xF0 | byte(rcode&0x0F)"]
+  /\ cut_wire_calls_src = [bytes_of "wire.ApplyReply(body, req.ID(), req.Opcode(), req.RD(), req.CD())";
+                           bytes_of "wire.SetRcode(body, dns.RcodeNameError)"; bytes_of "wire.SetRA(body)"; bytes_of "wire.SetAD(body)"]
+  /\ failure_wire_calls_src = [bytes_of "wire.ApplyReply(body, req.ID(), req.Opcode(), req.RD(), req.CD())";
+                               bytes_of "wire.SetRcode(body, dns.RcodeServerFailure)"; bytes_of "wire.SetRA(body)"].
+Proof. repeat split; reflexivity. Qed.
+
 (* WriteWire's top-level guards, in order (Model.write_wire follows them) *)
 Lemma gen_write_wire_guards :
   write_wire_guards_src = [bytes_of "!ok || len(body) < wire.HeaderLen"; bytes_of "!w.do && info.HasDNSSEC";
